@@ -7,14 +7,14 @@ TB = ("Trusted: Lean 4.33 kernel; axioms propext/Classical.choice/Quot.sound onl
       "Inkayaku/Gen from the current build; the differential harness, generators and Python oracles; ")
 
 P = {
- 'C01': ("Theorems (Lean): the capture/promotion generator is exactly the capture-or-promotion filter of the pseudo-legal generator; every generated move is well-formed (C03 genPseudo_ok); "
-         "check detection equals the rules' attack relation (C05) and table lookups equal ray walks (C04), castling masks equal the FIDE squares. The full equality genLegal = Spec.legalMoves "
-         "is decided on every run by three-way differential testing (implementation = bitboard model = independent mailbox Spec of the rules) on generated legal positions incl. perft.",
-         TB + "the full set equality with the rules is established by differential testing against the executable Spec, not by a closed Lean proof (stated as TARGET in Props/C01.lean).",
-         "Lean 4 theorems for the generator structure + three-way differential testing against an executable rules Spec", "§4 C01"),
- 'C02': ("Successor position of every legal move compared field by field (FEN) between implementation, bitboard model and the mailbox Spec; Lean theorems: castling-right loss, clock and e.p. updates of makeF as functions of the move fields.",
-         TB + "equality with the rules' successor is by differential testing against the executable Spec.",
-         "Lean 4 theorems on makeF + three-way differential testing", "§4 C02"),
+ 'C01': ('Lean theorems (Props/C01, Props/Closure): genLegal_eq_rules — for every well-formed board the UCI texts of the legal-move generator are exactly the legal moves of the independent mailbox Spec of the rules of chess (no missing, no extra move; castling, e.p., promotions, pins, checks), no_moves_iff_rules; capture/promotion generator = filter of the pseudo-legal generator; uses C04 (table lookups = ray walks) and C05 (check detection = attack relation). Tied to the code on every run by three-way differential testing (implementation = bitboard model = Spec) on generated legal positions incl. perft to depth 3 and legal-after lines.',
+         TB + 'the bitboard model is hand-written; its equality with board/src is checked by differential testing, not proved.',
+         'Lean 4 proof (abstraction of the bitboard generator to a mailbox rules Spec) + three-way differential testing',
+         '§4 C01'),
+ 'C02': ('Lean theorems (Props/C02, Closure.wfStep): for every well-formed board and legal move the successor computed by make equals, field by field (placement, side, rights, e.p. square, both clocks up to 4095), the successor of the rules Spec; castling-right loss, clock and e.p. updates as functions of the move; wf is preserved. Tied to the code by comparing the FEN of every successor between implementation, model and Spec, incl. clocks far above 100.',
+         TB + 'the bitboard model is hand-written; its equality with board/src is checked by differential testing.',
+         'Lean 4 proof against a mailbox rules Spec + three-way differential testing',
+         '§4 C02'),
  'C03': ("Lean theorems: field_roundtrip (decode∘encode = id on the CURRENT masks/shifts), unmake_make for every move satisfying the decidable MoveOK, genPseudo_ok/genNonQuiescent_ok (the generators only emit MoveOK moves on well-formed boards, every clock value up to 4095), hence unmake_make_generated incl. both hashes, and the line version by induction; tied to the code by make/unmake snapshots on all pseudo-legal moves of generated positions and whole lines.",
          TB + "u32 overflow of the full-move counter excluded by wf (fullmove < 2^31).",
          "Lean 4 proof (bit-level identities, induction over lines) + differential testing", "§4 C03"),
@@ -27,12 +27,14 @@ P = {
  'C06': ("Lean theorems: hash_incremental / pawnHash_incremental (xor-linearity of the occupancy hash, zero rows), hash_congr (hash is a function of placement, side, rights, e.p. file), keys_good on the regenerated key material and single-component sensitivity; tied to the code by incremental-vs-recomputed checks on all pseudo-legal moves, clock/side/right/e.p. variants and a pool-wide key↔hash bijection check.",
          TB + "collisions between multi-component differences are outside the property.",
          "Lean 4 proof (GF(2) linearity) over regenerated keys + differential testing", "§4 C06"),
- 'C07': ("Lean theorems on the faithful search model: go emits exactly one bestmove (last), taken from the last completed iteration; root move comes from the filtered legal buffer; no-legal-move gives the null move; tied to the code by in-process sessions (every go-limit kind, searchmoves, stop at enumerated poll points, virtual clock) compared exactly (scores, PVs, best moves) with the model, and by the real engine binary over pipes.",
-         TB + "thread scheduling and wall clock are replaced by the poll-period / pending-message / virtual-clock parameters (hooks), over which the theorems quantify.",
-         "Lean 4 theorems about an executable state-machine model + exact differential testing of sessions", "§4 C07"),
- 'C08': ("Lean theorems: fail-soft alpha-beta with ANY move order over fail-hard quiescence equals minimax (quiescence_clamp, ab_ok, order_irrelevant, root_exact, best_move_optimal), mate-score arithmetic (C11 score_mate_*); the verified evaluator is the executable oracle: engine scores at depth 1..3 must equal it and the best move must attain it; mates in 1..3 corpus.",
-         TB + "soundness of the transposition table inside the concrete search model for d<=3 is a stated TARGET; it is covered by exact differential testing of model and engine.",
-         "Lean 4 proof on an abstract game instantiated with the board model + differential testing against the verified evaluator", "§4 C08"),
+ 'C07': ("Lean theorems on the faithful search model (Props/C07, C07Final): go emits exactly one bestmove, last; bestmove_legal / go_answers_legal_move (a legal move of the position, among searchmoves when given, whenever one exists; depth 1 always completes under the engine's poll period); the move comes from the last completed iteration; no-legal-move gives the null move; BoardLaws discharged from C03/C02. Tied to the code by in-process sessions (every go-limit kind, searchmoves, stop at enumerated poll points, virtual clock) compared with the model on what the property determines, judged by the rules Spec, and by the real engine binary over pipes.",
+         TB + 'thread scheduling and wall clock are replaced by the poll-period / pending-message / virtual-clock parameters (hooks), over which the theorems quantify.',
+         'Lean 4 theorems about an executable state-machine model + differential testing of sessions',
+         '§4 C07'),
+ 'C08': ('Lean theorems: fail-soft alpha-beta with ANY move order and transposition table over fail-hard quiescence equals minimax (ab_ok, ab_tt_ok under TTValid, order_irrelevant, root_exact, best_move_optimal); C08Sim: the CONCRETE search model (make/unmake on one board, fuel, node counters, polls, hash-keyed table, repetition test, killer/PV/TT ordering) computes specValue for d<=3 and plays an optimal move (negamax_eq_spec, go_eq_spec; for d<=2 with no chess hypothesis beyond hash non-collision, for d=3 two transposition facts remain stated); mate_found/mate_real, C16Pv.mate_pv (a reported mate N has a legal PV of 2N-1 plies ending in checkmate). The verified evaluator is the executable oracle on every run: engine scores at depth 1..3 must equal it, the best move must attain it; validated corpora of mates in 2-3 and being-mated positions; the REAL transposition table is read back (hook) and every sampled entry checked against the invariant TTValid.',
+         TB + '64-bit hash non-collision (HashInj/HashNonzero) on the <=3-ply neighbourhood of the root is a hypothesis; for d=3 Transp13/Transp22 are stated, not proved.',
+         'Lean 4 proof (abstract game + simulation by the concrete search model) + differential testing against the verified evaluator + invariant read-back',
+         '§4 C08'),
  'C09': ("Lean bracket theorem: for every fuel, window, poll period, pending message, clock and go parameters negamax/quiescence/deepen/go leave the visible board unchanged (every exit path incl. abort at any node), by induction, from C03's unmake_make; sessions by induction over consecutive searches; tied to the code by enumerating EVERY poll point of small searches (stop and quit, movetime expiry under the virtual clock) and reading the board back through the hook.",
          TB + "hypotheses H1/H2 (unmake∘make = id on wf boards; wf preserved by legal moves) are discharged by C03 / checked by the correspondence.",
          "Lean 4 invariant proof by induction over the search recursion + exhaustive interruption-point enumeration", "§4 C09"),
@@ -45,21 +47,25 @@ P = {
  'C12': ("Lean theorems: print_parse_board / print_parse_legal (reading back what was written gives the same position, all rights/e.p./clocks < 2^32), decode_correct against an independent FEN printer Spec, parse_print_same, four_field_defaults, eight rejection theorems, parse_no_panic_branch (totality); tied to the code by canonical, mutated and random strings with an independent Python FEN reference.",
          TB + "the regex crate is modelled by a hand translation of FEN_REGEX.",
          "Lean 4 round-trip proof on strings + differential testing with an independent reference reader", "§4 C12"),
- 'C13': ("Lean theorems: findUci/uciToSan leave the visible board unchanged in every case, findUci_ok_iff (accepted iff trimmed text is the UCI text of a legal move), makeAllUci all-or-nothing by induction with C03's line theorem; tied to the code by structured and random move strings, complete 64x64x6 sweeps and move lists with an error at a random index, judged by the rules Spec.",
-         TB + "uses C03 (unmake_make_generated).",
-         "Lean 4 proof from the C03 bracket lemmas + differential testing judged by the rules Spec", "§4 C13"),
- 'C14': ("SAN of every legal move compared between implementation, model and the standard-SAN Spec (minimal disambiguation, capture, promotion, castling, + and # via C05), parse-back equals the move; SAN parser on perturbed strings; Lean theorems on the SAN regex matcher (leftmost-first translation) and suffix logic.",
-         TB + "san_eq_spec as a closed Lean theorem is a stated TARGET; equality with the Spec is decided by differential testing.",
-         "Lean 4 theorems on the SAN grammar model + three-way differential testing against a SAN Spec", "§4 C14"),
+ 'C13': ("Lean theorems: findUci/uciToSan leave the visible board unchanged in every case, findUci_ok_iff_legal_wf (accepted iff the trimmed text is the UCI text of a legal move of the rules Spec), makeAllUci_all_or_nothing_wf by induction with C03's line theorem; tied to the code by structured and random move strings, complete 64x64x6 sweeps and move lists with an error at a random index, judged by the rules Spec.",
+         TB + 'uses C03 (unmake_make_generated) and C01 (genLegal_eq_rules).',
+         'Lean 4 proof from the C03 bracket lemmas + differential testing judged by the rules Spec',
+         '§4 C13'),
+ 'C14': ('Lean theorems: san_eq_spec / uciToSan_eq_spec (Props/C14Spec) — for every well-formed board and legal move the SAN writer model produces exactly the standard SAN of the independent Spec (minimal disambiguation among LEGAL like pieces, capture, promotion, castling, + and # from C05); parse-back theorems on the SAN regex matcher (leftmost-first translation) and suffix logic. Tied to the code by comparing SAN of every legal move between implementation, model and Spec, parse-back, and the SAN parser on perturbed strings.',
+         TB + 'the regex crate is modelled by a hand translation of the SAN regex.',
+         'Lean 4 proof against a standard-SAN Spec + three-way differential testing',
+         '§4 C14'),
  'C15': ("Lean theorems parse_render / parse_line (every well-formed command incl. every subset and order of go parameters, arbitrary spacing), ucimove_roundtrip, rejection lemmas (unknown first word, duplicate go parameter, bad int/move/FEN, missing parameter); the model is total so no input panics; tied to the Rust parser by grammar-generated lines with independently computed expected answers, mutations and random strings.",
          TB + "Rust std trim/split/integer parsing and the regex crate are modelled, not verified.",
          "Lean 4 theorems about a hand-written executable model + differential testing with independent expected answers", "§4 C15"),
- 'C16': ("Lean theorems on the search model: infos never contain a bestmove, bestmove_is_pv0_ponder_is_pv1, info_depth/nodes/time monotone; every output line of the real engine binary is matched against the UCI engine-to-GUI grammar; PVs validated as legal lines by the rules Spec.",
-         TB + "SystemTime monotonicity; PV legality through transposition-table hits assumes no 64-bit hash collision.",
-         "Lean 4 trace theorems + grammar recogniser over the real binary's stdout", "§4 C16"),
- 'C17': ("Lean theorems chunk_independent (for every input, chunk size >= 1 and read fragmentation the buffered reader yields exactly what the plain byte list yields) and parse_render (every well-formed Lichess-layout collection is read back completely), combined in c17; tied to pgn/src/reader.rs by differential testing over chunk sizes/schedules with independently computed expected answers, plus SAN replay of the yielded moves on the real board.",
-         TB + "std::io::Read contract (0 bytes only at EOF).",
-         "Lean 4 simulation proof (invariant consumed++window++rest=input) + differential testing", "§4 C17"),
+ 'C16': ('Lean theorems: info depth/nodes/time monotone, bestmove_is_pv0_ponder_is_pv1, null_bestmove_no_ponder; C16Pv.pv_legal_line(_rules): every reported PV is a legal line from the searched position (by the rules Spec), mate_pv; C16Console.render_accepts: every well-formed message printed by the console writer model is accepted by an independent UCI engine-to-GUI grammar, single line. Tied to the code: console lines of the REAL ConsoleUciTx = model and accepted by the grammar; every stdout line of the real binary matched against the grammar; PVs validated as legal lines by the rules Spec; multi-cycle sessions with state carried over.',
+         TB + 'SystemTime monotonicity; PV legality through table hits assumes no hash collision on the reachable set (HashInjCore); that every message the engine hands to the printer is well-formed (non-empty pv) follows from the search model, not from the printer.',
+         "Lean 4 trace theorems + grammar recogniser theorem + differential testing incl. the real binary's stdout",
+         '§4 C16'),
+ 'C17': ('Lean theorems chunk_independent (for every input, chunk size >= 1 and read fragmentation the buffered reader yields exactly what the plain byte list yields), parse_render (every well-formed Lichess-layout collection is read back completely), c17; C17Replay.pgn_replay: the SAN texts of any legal line written in that layout are read back and replay on the board model to exactly the positions of the line. Tied to pgn/src/reader.rs by differential testing over chunk sizes/schedules with independently computed expected answers, plus SAN replay of the yielded moves on the real board (incl. games of > 255 moves).',
+         TB + 'std::io::Read contract (0 bytes only at EOF); lines longer than 4095 plies outside wf.',
+         'Lean 4 simulation proof (invariant consumed++window++rest=input) + differential testing',
+         '§4 C17'),
  'C18': ("Lean refinement theorem: for every capacity, key type and put/get/clear sequence the table model produces the outputs of the abstract FIFO-bounded map; corollaries len_le_cap, len_eq_card, evicts_oldest, get_put_same/other, get_after_clear; tied to HashTable through a hook by differential testing with an independent Python reference.",
          TB + "std HashMap/VecDeque behave as map/queue.",
          "Lean 4 refinement proof by induction over operation sequences + differential testing", "§4 C18"),
